@@ -448,7 +448,10 @@ class AttributeCollection(MutableMapping[int, Attribute]):
         """Decode the first attribute of data, return what is left after it (empty to stop)."""
         try:
             # We do not care if the attribute are transitive or not as we do not redistribute
-            flag = Attribute.Flag(data[0])
+            # RFC 4271 4.3: "The lower-order four bits of the Attribute Flags octet are unused. They MUST be zero when
+            # sent and MUST be ignored when received": compared as received, ORIGIN `41 01 01 00` was a known attribute
+            # with the wrong flags and its routes were treated as withdrawn
+            flag = Attribute.Flag(data[0] & 0xF0)
             aid = data[1]
         except IndexError:
             self.add(TreatAsWithdraw())
